@@ -250,7 +250,10 @@ pub fn process_line(v: &Value, want: &MWant, rep: &mut Report) {
     }
     rep.sample(json!({"history": h, "spec": specs}));
     for &sc in &want.scales {
-        replay(h, &ops, &specs, sc, want, rep);
+        let r = std::panic::catch_unwind(std::panic::AssertUnwindSafe(|| replay(h, &ops, &specs, sc, want, &mut *rep)));
+        if r.is_err() {
+            viol(rep, &want.prop, "Min/Max", sc, h, 0, "panic", "the code under test panicked".into());
+        }
     }
     for x in rep.violations.iter_mut().skip(kept_before) {
         x["line"] = v.clone();
